@@ -513,7 +513,11 @@ func c07Scenarios(tier string) []scenario {
 		}
 		for _, cl := range []string{"CloseNow", "peerClose", "ctx"} {
 			prm := c07ConcParams{K: k, Closer: cl}
-			scs = append(scs, scenario{Name: prm.name(), Cfg: pc, Setup: c07ConcSetup(prm)})
+			pk := pc
+			if k.Flate && !k.CNCT && pk.P > 1 {
+				pk.P = 1 // executions that inflate with context takeover are ~10x slower
+			}
+			scs = append(scs, scenario{Name: prm.name(), Cfg: pk, Setup: c07ConcSetup(prm)})
 		}
 	}
 	return scs
